@@ -57,6 +57,7 @@ Example 2: addressable HW parameters
 """
 
 import functools
+from copy import copy
 from frappy.errors import ProgrammingError
 
 
@@ -157,7 +158,11 @@ class CommonReadHandler(ReadHandler):
                 if readerror:
                     # func tried to assign a value not accepted by the datatype:
                     # do not return the outdated value as if it were read just now
-                    raise readerror
+                    # (raise a copy: the callers add their names to the error on its way up,
+                    # the stored one must stay as it was announced)
+                    error = copy(readerror)
+                    error.raising_methods = list(getattr(readerror, 'raising_methods', None) or ())
+                    raise error
                 return getattr(module, pname)
 
         method = wraps(self.func)(method)
